@@ -919,6 +919,16 @@ func (b *Reader) ReadString(data *string, tag byte, require bool) error {
 	return nil
 }
 
+// CheckLength validates the element count announced by a list or map before anything is
+// allocated for it: it must not be negative and, since every element occupies at least one
+// byte, it cannot exceed the number of bytes that remain.
+func (b *Reader) CheckLength(length int32) error {
+	if length < 0 || int(length) > b.buf.Len() {
+		return fmt.Errorf("invalid length %d, %d bytes remain", length, b.buf.Len())
+	}
+	return nil
+}
+
 // ToString make the reader to string
 func (b *Reader) ToString() string {
 	return string(b.ref[:])
